@@ -148,7 +148,7 @@ class StoreProp(Prop):
 
 class C14(StoreProp):
     id = 'C14'
-    quick_runs = 4000
+    quick_runs = 8000
     thorough_runs = 120000
     profile = {'weights': WEIGHTS, 'n_ops': (8, 40),
                'restarts': [('pickle', 2), ('deepcopy', 2), ('dict', 2), ('json', 1), ('inp', 2)]}
